@@ -1194,6 +1194,42 @@ fn history_checks(out: &mut Out, seed: u64, thorough: bool) {
             digest: |m| format!("{}|{}", jcanon(m), us(m.predict(&x).iter())),
             apply: |m, b| us(m.predict(b).iter()), b1: &b1, b2: &b2);
         emit(out, "gaussian_nb", "S: var_smoothing 1e-9; S': 0.3", o);
+        {
+            // incremental history: fit_with(A), [predict], fit_with(B), predict - the prediction in between must not matter
+            let inc = |peek: bool, gaussian: bool| -> String {
+                let (da, db) = if gaussian { (ds3.clone(), ds3o.clone()) } else { (dsc.clone(), dsco.clone()) };
+                let (xq, pk) = (if gaussian { x.clone() } else { xc.clone() }, peek);
+                match guarded(move || -> Result<String, String> {
+                    let es = |e: linfa_bayes::NaiveBayesError| format!("{}", e);
+                    if gaussian {
+                        let pr = GaussianNb::<f64, usize>::params().var_smoothing(1e-9);
+                        let m1 = pr.fit_with(None, &da).map_err(es)?;
+                        if pk { if let Some(m) = &m1 { let _ = m.predict(&xq); } }
+                        let m2 = pr.fit_with(m1, &db).map_err(es)?.ok_or_else(|| "no model".to_string())?;
+                        Ok(us(m2.predict(&xq).iter()))
+                    } else {
+                        let pr = MultinomialNb::<f64, usize>::params().alpha(1.0);
+                        let m1 = pr.fit_with(None, &da).map_err(es)?;
+                        if pk { if let Some(m) = &m1 { let _ = m.predict(&xq); } }
+                        let m2 = pr.fit_with(m1, &db).map_err(es)?.ok_or_else(|| "no model".to_string())?;
+                        Ok(us(m2.predict(&xq).iter()))
+                    }
+                }) { Ok(Ok(t)) => t, Ok(Err(e)) => format!("ERROR: {}", e), Err(p) => format!("PANIC: {}", p) }
+            };
+            for (gaussian, est) in [(true, "gaussian_nb_incremental"), (false, "multinomial_nb_incremental")] {
+                let (plain, peeked) = (inc(false, gaussian), inc(true, gaussian));
+                let rid = 300_900 + (round as u64) * 2 + (gaussian as u64);
+                if out.wanted(rid) {
+                    let tag = format!("history_{}", est);
+                    out.bump(&tag);
+                    let desc = format!("{{\"estimator\": \"{}\", {}, \"sequence\": \"fit_with(None, data), [predict(data)], fit_with(Some(model), other_data), predict(data): with and without the prediction in between\"}}", est, base);
+                    out.rust_eval(&desc, Some(fnv(desc.as_bytes())));
+                    if plain != peeked {
+                        out.rust_fail(rid, 32, &["history", &tag], &format!("{}: a prediction between two fit_with calls changes what the updated model predicts; {}", est, first_diff(&plain, &peeked)), &desc);
+                    }
+                }
+            }
+        }
 
         let o = hist_obs!(
             fresh: MultinomialNb::<f64, usize>::params().alpha(1.0), other: MultinomialNb::<f64, usize>::params().alpha(0.25), reconf: |p| p.alpha(1.0),
